@@ -20,13 +20,12 @@ from sa.loader import call_name, calls_in, kwarg, walk_local
 
 PROPERTY = "C19"
 EXPLANATION = (
-    "Guard-dominance analysis on statement CFGs with route assumptions (input kind, simple output) "
-    "pruned by constant folding; each dominating exiting guard is lifted and folded over an enumerated "
-    "grid (depth x minimum x neutral-region present/absent) and must raise wherever the property demands "
-    "an error. Rules: R1 depth guard dominates all three stage calls on every alignment route, for "
-    "estimated and user-supplied structures alike; R2 empty-neutral-region and diploid-depth guards in "
-    "Coverage._normalize_coverage / Sample.__init__; R3 low-depth guard of the structure stage that "
-    "still counts pseudogene depth; R4 newline pairing for errors in simple output."
+    "genotype() folded whole by the analysis' interpreter over input kind x structure given / estimated x configured "
+    "minimum x depth x output style (432 scenarios): below the minimum an AldyException before any stage and exactly one "
+    "closed empty line in simple output, at or above it the stages run; errors of an empty stage close the line once. "
+    "estimate_cn folded whole over depth tables of one- and two-part genes (error below half the smallest configuration, "
+    "before filter and model; a pseudogene-only sample passes). Neutral-region guards of Coverage._normalize_coverage by "
+    "whole folds (empty region, zero ratio) and of Sample.__init__ by guard dominance on the statement CFG."
 )
 ASSUMPTIONS = [
     "input kinds are the values detect_genome can return: 'sam', 'dump', '' (alignment routes) and 'vcf', 'pscan'",
